@@ -355,7 +355,56 @@ def s_bech32_arbitrary():
                                   "upper": st.booleans()})
 
 
+# characters whose case mappings land in (or expand to) ASCII: U+212A KELVIN -> 'k', U+0130 -> 'i' + U+0307, U+017F -> 'S',
+# U+0131 dotless i -> 'I', fullwidth forms, plus arbitrary code points
+_TRICKY = ["\u212a", "\u0130", "\u0131", "\u017f", "\u00df", "\uff51", "\uff11", "\u0261", "\u1e9e", "\u00b5", "\u03bc",
+           "\u0000", "\u007f", "\u0080", " ", "\u00e9"]
+
+
+def o_bech32_unicode(case):
+    """a valid address (lower or upper case) with 1-4 positions replaced by non-ASCII / case-mapping characters"""
+    hrp = case["hrp"]
+    s = _valid_string(case)
+    if s is None:
+        return ["skip-invalid-triple"]
+    if case["upper"]:
+        s = s.upper()
+    chars = list(s)
+    sep = s.rfind("1")
+    for pos, ch, where in case["edits"]:
+        i = (sep + 1 + pos % (len(s) - sep - 1)) if where == "data" else pos % len(s)
+        chars[i] = ch
+    t = "".join(chars)
+    if all(33 <= ord(c) <= 126 for c in t):
+        return ["skip-ascii"]
+    labels = ["upper" if case["upper"] else "lower"]
+    if any(c in _TRICKY[:11] for c in t):
+        labels.append("case-mapping-char")
+    ref = refenc.segwit_decode(hrp, t)
+    assert ref is None
+    for h in (hrp, hrp.upper()):
+        got = bech32m.decode(h, t)
+        if got != (None, None):
+            _bad("bech32:non-ascii-accepted", "decode(%r, %r) = %r (valid original %r)" % (h, t, got, s))
+    raw = bech32m.bech32_decode(t)
+    if raw != (None, None, None):
+        _bad("bech32:non-ascii-accepted", "bech32_decode(%r) = %r (valid original %r)" % (t, raw, s))
+    if ps.parse_bech32(t) is not None:
+        _bad("bech32:non-ascii-accepted", "parse_bech32(%r) not None" % t)
+    return labels
+
+
+def s_bech32_unicode():
+    ch = st.one_of(st.sampled_from(_TRICKY), st.sampled_from(_TRICKY[:6]), st.characters(min_codepoint=127))
+    edit = st.tuples(st.integers(0, 200), ch, st.sampled_from(["data", "data", "any"])).map(list)
+    return st.builds(lambda tr, up, e: dict(tr, upper=up, edits=e), valid_triples(), st.booleans(),
+                     st.lists(edit, min_size=1, max_size=4))
+
+
 SUBCHECKS = [
+    SubCheck("bech32_unicode", o_bech32_unicode, strategy=s_bech32_unicode, budget=(4000, 400000),
+             nontrivial=lambda c, l: not any(x.startswith("skip") for x in l),
+             rule="valid addresses in lower or upper case with 1-4 positions replaced by non-ASCII characters, weighted to code points whose lower()/upper() mapping is ASCII (KELVIN SIGN, dotted/dotless i, long s, fullwidth forms): must be refused by decode, bech32_decode and the cached parser"),
     SubCheck("b58_bytes_exhaustive", o_b58_bytes, cases=cases_b58_bytes, exhaustive=True,
              nontrivial=lambda c, l: c["data"].startswith("00"),
              rule="all byte strings of length <= 2: b2a == reference, a2b(b2a(x)) == x, hashed round trip; non-trivial = leading zero byte"),
